@@ -531,6 +531,16 @@ fn run_generic<S: SeedT>(c: &Case, out: &mut Outcome) {
     }
 }
 
+/// `IsSync::<T>::IS` is true iff `T: Sync` (the inherent constant exists only then and takes precedence).
+struct IsSync<T: ?Sized>(std::marker::PhantomData<T>);
+trait NotSyncFallback {
+    const IS: bool = false;
+}
+impl<T: ?Sized> NotSyncFallback for IsSync<T> {}
+impl<T: ?Sized + Sync> IsSync<T> {
+    const IS: bool = true;
+}
+
 pub struct C17;
 
 fn action_strategy() -> impl Strategy<Value = Action> {
@@ -550,7 +560,7 @@ impl Prop for C17 {
     fn rule(&self) -> String {
         "cases = (seed kind: with Drop / without drop glue / with a panicking destructor, each also as a large seed (520 B, 4 KiB, 1 KiB) carrying a checked padding, and a zero-sized seed with a destructor; initialisers may also run from the destructor of a guard while their thread unwinds from an unrelated panic; 1..8 threads each with a script of failing, panicking or succeeding \
          initialisers that may mutate the seed first; optional spin rendezvous before every attempt; optional getter thread calling get() while the first initialiser is parked inside the cell). \
-         Oracle: at most one initialiser inside the cell at a time, exactly one success, one reference/value for all callers, the seed is found exactly as the previous initialisers left it, \
+         Oracle: the compiler's auto-trait decisions (a cell whose seed is not Send, or whose value is not Send + Sync, is not Sync; with Arc both it is); at most one initialiser inside the cell at a time, exactly one success, one reference/value for all callers, the seed is found exactly as the previous initialisers left it, \
          get() is None until a success and never blocks (a blocked getter deadlocks the case -> blocked-state detector), drop ledger: seed alive until success, dropped once after, value alive until the cell is dropped, nothing left, nothing dropped twice. \
          non-trivial = >= 2 threads, or a failing/panicking initialiser that mutated the seed followed by another attempt; distinct = different canonical JSON"
             .into()
@@ -583,6 +593,24 @@ impl Prop for C17 {
     fn run(&self, case: &Value) -> Outcome {
         let c: Case = from_case(case);
         let mut out = Outcome::new();
+        // which threads may see the cell at all: any thread that calls get_or_init on a shared cell may be the
+        // one that runs the initialiser on the seed and drops it, so a cell is shareable only if its seed may
+        // move to another thread (decided by the compiler; read here through an inherent-vs-trait constant)
+        {
+            use std::rc::Rc;
+            use std::sync::Arc;
+            let rc_seed = IsSync::<OnceInitCell<Rc<u8>, u8>>::IS;
+            let rc_value = IsSync::<OnceInitCell<u8, Rc<u8>>>::IS;
+            let cell_value_not_sync = IsSync::<OnceInitCell<u8, std::cell::Cell<u8>>>::IS;
+            let arc_both = IsSync::<OnceInitCell<Arc<u8>, Arc<u8>>>::IS;
+            if rc_seed || rc_value || cell_value_not_sync || !arc_both {
+                out.fail(
+                    "auto-traits",
+                    format!("OnceInitCell<Rc<u8>, u8>: Sync = {rc_seed}, OnceInitCell<u8, Rc<u8>>: Sync = {rc_value}, OnceInitCell<u8, Cell<u8>>: Sync = {cell_value_not_sync} (all three must be false: another thread could run the initialiser on the seed, drop it, or read the value), OnceInitCell<Arc<u8>, Arc<u8>>: Sync = {arc_both} (must be true)"),
+                );
+                return out;
+            }
+        }
         match c.seed {
             SeedKind::Drop => run_generic::<SeedD>(&c, &mut out),
             SeedKind::NoDrop => run_generic::<SeedN>(&c, &mut out),
